@@ -1,9 +1,9 @@
 From Coq Require Import Extraction ExtrOcamlBasic QArith Qabs ZArith NArith.
-From SF Require Import Base.GeomAST Base.QKernel Base.Planar Model.Boundary Model.PointOnSurface Model.PosJudge Model.PosNesting Model.BoundaryExact Model.PosNesting2.
+From SF Require Import Base.GeomAST Base.QKernel Base.Planar Model.Boundary Model.PointOnSurface Model.PosJudge Model.PosNesting Model.BoundaryExact Model.PosNesting2 Model.BoundaryMod2.
 Extraction Language OCaml.
 Extraction "model.ml"
   boundary boundary_concrete dimension dim_ie is_empty geom_wf leaves
-  dim_clause probes_on_boundary boundary_exact boundary_exact_ok n_segments members_overlap
+  dim_clause probes_on_boundary boundary_exact boundary_exact_ok n_segments members_overlap mod2_exact mod2_complete puntalb
   pos leaf_pos point_on_area mpoly_pos poly_row pos_ok pos_intersects
   geom_q point_q all_finite f64_to_Q magnitude
   near_ok leaf_cands area_cands poly_pos_ok mpoly_pos_ok point_eqb point_xy point_empty row_shifted row_fragile max_dim_nonempty row_hyps row_regular nesting_atb poly_empty nest_okb nest_okb2 ogc_nest_okb
